@@ -149,6 +149,14 @@ def main(pid, tier, seed):
                 verdict.violation({'clause': clause, 'string': s, 'passwords': m.get('passwords'), 'check': clause,
                                    'noninvertible_case': not check_train.invertible_case(s)},
                                   'clause %s; string %r' % (clause, s))
+    def corrupt(t):
+        k = next((i for i, c in enumerate(t['cands']) if c['r'] != 0 and c['dr']), None)
+        if k is None:
+            return None
+        t['cands'][k]['dr'] = []                     # a non-zero score for a string the guesser never emits
+        return t
+    accepted = [t for t in traces if verdicts[t['tid']][0] == 'ACCEPT']
+    selftest = core.binding_selftest('TrScore.tla', accepted, corrupt, n=3)
     verdict.matcher('C13-F15-noninvertible-case-letters',
                     lambda w: w.get('clause') == 'C13_nonzero_score_is_a_guess_of_that_probability' and w.get('noninvertible_case'))
     rc, n_viol, n_known = verdict.finish()
@@ -159,7 +167,7 @@ def main(pid, tier, seed):
                    'guesser language table; non-trivial = non-zero score; candidates = training passwords, guesser output, one-edit '
                    'perturbations, unrelated strings, e-mail / website strings',
            'samples': [{'passwords': meta[s['tid']].get('passwords'), 'candidates': meta[s['tid']].get('cand_list', [])[:12]}],
-           'trainings': len(traces), 'trace_validation': st, 'model_checking': mc, 'states': mc['states'], 'transitions': mc['transitions'], 'exhaustive': False,
+           'trainings': len(traces), 'trace_validation': st, 'binding_selftest': selftest, 'model_checking': mc, 'states': mc['states'], 'transitions': mc['transitions'], 'exhaustive': False,
            'known_findings_reproduced': n_known, 'violation_histogram': verdict.histogram()}
     core.write_evidence(pid, tier, seed, 'exploration', cov, time.time() - t0, violations=n_viol,
                         assumptions=['TLC compares ranks; floats clustered within relative 1e-9', 'e-mail / website detection recomputed with the detectors',
